@@ -7,11 +7,12 @@ LEVEL = "exploration"
 RULE = ("C03-style workloads (random/swept cuts, reordering+duplicating real server; a third of the "
         "cases use the plain order-preserving real server for the versions-before-messages clause; "
         "10% use mismatched codes) with delegate or Deferred API, all get_* subscribed at creation "
-        "plus up to 12 extra get_*() at random times including after close. Non-trivial = a verifier "
+        "plus up to 12 extra get_*() at random times including after close; a share of cases leaves one side's "
+        "received messages unread (never / at most k get_message calls) so a backlog exists at close. Non-trivial = a verifier "
         "was seen and the wormhole closed with extra gets issued; distinct = decision traces.")
 ASSUMPTIONS = ["Deferred callbacks fire in the order the eventual queue was fed, so firing order = event order"]
-FLOORS = {"quick": {"extra_gets": 2000, "gets_after_close": 300, "closed": 600, "order_preserving_cases": 100},
-          "thorough": {"extra_gets": 40000, "gets_after_close": 6000, "closed": 10000, "order_preserving_cases": 2000}}
+FLOORS = {"quick": {"extra_gets": 2000, "gets_after_close": 300, "closed": 600, "order_preserving_cases": 100, "unread_backlog_at_close": 40},
+          "thorough": {"extra_gets": 40000, "gets_after_close": 6000, "closed": 10000, "order_preserving_cases": 2000, "unread_backlog_at_close": 2500}}
 ORDER = {"code": 0, "key": 1, "verifier": 2, "versions": 3, "msg": 3, "closed": 4}
 GETS = ["welcome", "code", "unverified_key", "verifier", "versions", "message"]
 
@@ -23,6 +24,13 @@ def cases(tier, seed, prep=None):
         out.append({"kind": "random", "seed": seed * 1000003 + 700000 + i,
                     "server": ("plain" if i % 3 == 0 else "reorder"),
                     "mismatch": (i % 10 == 7), "ndrops": [0, 0, 1, 2, 3]})
+    # unread backlog: one side never (or only k times) asks for messages, so received messages are still
+    # buffered when the wormhole closes; they must not be handed out afterwards
+    for i in range(60 if tier == "quick" else 2000):
+        who = "ab"[i % 2]
+        over = {"api_" + who: "deferred", "get_" + who: ["never", "lazy"][i // 2 % 2], "get_limit": i % 3}
+        out.append({"kind": "random", "seed": seed * 1000003 + 750000 + i, "server": ("plain" if i % 3 == 0 else "reorder"),
+                    "mismatch": False, "ndrops": [0, 0, 1], "cfg_over": over, "min_msgs": 2, "unread": who.upper()})
     bases = range(2) if tier == "quick" else range(16)
     for b in bases:
         for who in "AB":
@@ -65,8 +73,16 @@ def run_case(spec):
     drv.drain_actions = actions
     done = (lambda: drv.all_delivered()) if not spec.get("mismatch") else (
         lambda: any(k.endswith("-err") for k in drv.a.kinds() + drv.b.kinds()))
+    if spec.get("unread"):
+        rd = drv.app("B" if spec["unread"] == "A" else "A")     # the side that does read everything
+        nr = drv.app(spec["unread"])
+        done = lambda: drv.all_sent() and rd.msgs == nr.sent
     end = sch.run(1200, until=done)
     sch.drain(120.0, 5000, until=done)
+    backlog = 0
+    if spec.get("unread"):
+        sch.drain(20.0, 600)
+        backlog = len(getattr(getattr(nr.w, "_received_observer", None), "_results", ()))
     drv.a.close()
     drv.b.close()
     sch.drain(120.0, 4000, until=lambda: drv.a.closed and drv.b.closed)
@@ -145,7 +161,7 @@ def run_case(spec):
         "counters": dict(counters, closed=int(drv.a.closed) + int(drv.b.closed), drops=drv.drops_done,
                          order_preserving_cases=int(spec["server"] == "plain"),
                          mismatch_cases=int(bool(spec.get("mismatch"))),
-                         delegate_sides=int(drv.a.api == "delegate") + int(drv.b.api == "delegate"),
+                         unread_backlog_at_close=backlog, delegate_sides=int(drv.a.api == "delegate") + int(drv.b.api == "delegate"),
                          notrans_seen=len(MON.notrans), log_errors_seen=len(MON.errors)),
         "sets": {"event_sequences": [" ".join(k for k in drv.a.kinds() if k in ORDER)]},
         "sample": {"spec": spec, "A": drv.a.kinds(), "B": drv.b.kinds(), "A_gets": drv.a.get_results[:10],
